@@ -6,6 +6,7 @@ CONSTANTS
   MAXU = 5
   OBJS = {"a"}
   PROP = "C03"
+  PERT = {1}
 SPECIFICATION Spec
 INVARIANTS C03 C07 C09 NoJunk EmitReplay
 CHECK_DEADLOCK FALSE
